@@ -25,15 +25,19 @@ Definition hcorr (s' : state) (oc : outcome) (o : hobs) : bool :=
        not in the future, a duplicate entry, or an open contract without its entry;
     13 exactly once / at the due height: a refunded contract not closed in the block of its
        expiration height, or a closed contract that changed again or disappeared. *)
+(** clause 12 *)
+Definition hhyg (o : hobs) : bool :=
+  nodupb (ho_queue o)
+  && forallb (fun '(h, id) =>
+       (ho_height o <? h)
+       && match get id (ho_objs o) with Some (st, e, _) => (st =? 0) && (e =? h) | None => false end)
+     (ho_queue o)
+  && forallb (fun '(id, (st, e, _)) => negb (st =? 0) || ememb (e, id) (ho_queue o)) (ho_objs o).
+
 Definition hprop (prev : list (Z * (Z * Z * Z))) (op_ : op) (o : hobs) : Z :=
   first_bad [
     (11, match op_ with BeginBlock _ => negb (ho_code o =? 2) | _ => true end);
-    (12, nodupb (ho_queue o)
-         && forallb (fun '(h, id) =>
-              (ho_height o <? h)
-              && match get id (ho_objs o) with Some (st, e, _) => (st =? 0) && (e =? h) | None => false end)
-            (ho_queue o)
-         && forallb (fun '(id, (st, e, _)) => negb (st =? 0) || ememb (e, id) (ho_queue o)) (ho_objs o));
+    (12, hhyg o);
     (13, forallb (fun '(id, (st, e, c)) => negb (st =? 2) || (c =? e)) (ho_objs o)
          && forallb (fun '(id, (st, e, c)) =>
               match get id (ho_objs o) with
